@@ -268,10 +268,25 @@ func TestVerifCPTrace(t *testing.T) {
 	per := vuEnvInt("VERIF_PROGRAMS", 2)
 	ntok := vuEnvInt("VERIF_TOKENS", 120)
 	for gi, grp := range tb.Groups {
-		for k := 0; k < per; k++ {
+		// fixed programs (seeded change C18m: a nesting depth kept as a flag shows only at depth 2, which needs six
+		// delimiters -- more than the quick tier enumerates and rare in the soup): every ordered pair of multi-character
+		// symbols of the group opened three times and closed three times, with a letter after each
+		var fixed [][]string
+		for _, o := range grp.Sigma {
+			for _, c := range grp.Sigma {
+				if o != c && len(o) >= 2 && len(c) >= 2 {
+					fixed = append(fixed, []string{o, "a", o, "a", o, "a", c, "a", c, "a", c, "a", "\n", "a", "\n"})
+				}
+			}
+		}
+		for k := 0; k < per+len(fixed); k++ {
 			lid := grp.Langs[rng.Intn(len(grp.Langs))]
 			var toks []string
 			n := ntok/2 + rng.Intn(ntok)
+			if k >= per {
+				toks, n = fixed[k-per], 0
+				lid = grp.Langs[(k-per)%len(grp.Langs)]
+			}
 			for i := 0; i < n; i++ {
 				switch x := rng.Intn(10); {
 				case x < 4:
